@@ -15,7 +15,7 @@
     file (0 <= File < 2^47, 0 <= Block < 2^16). *)
 From Coq Require Import ZArith List Bool Lia Sorting.Sorted.
 From Hts Require Import Base.Prim Base.Chunks Generated Model.Strategy Model.StrategySpec Model.StrategyRun
-  Proofs.Strategy Proofs.StrategyLoop Proofs.StrategyMain.
+  Proofs.Strategy Proofs.StrategyLoop Proofs.StrategyRuns Proofs.StrategyMain.
 Open Scope Z_scope.
 
 (** Every strategy returns normally on every list whatsoever (no index out of
@@ -92,6 +92,20 @@ Theorem strategy_valid :
   forall s l out, valid_chunks l -> run_strategy s l = Ok out -> valid_chunks out.
 Proof. exact strategy_valid_gen. Qed.
 Print Assumptions strategy_valid.
+
+(** What exactly a strategy returns (all lists of BGZF chunks, sorted or not):
+    the input is cut into consecutive runs and every run is replaced by its
+    enclosing chunk (Begin of its first chunk, the largest End); a chunk
+    continues the run before it exactly when the strategy's relation holds
+    between the run's enclosing chunk so far and the chunk — never for
+    Identity, always for Squash, "begins at or before the end" for Adjacent,
+    "begins within near compressed bytes of the end" for a Compressor.  So a
+    strategy neither merges more nor less than it documents, and every result
+    offset is an input offset. *)
+Theorem strategy_runs :
+  forall s l out, valid_chunks l -> run_strategy s l = Ok out -> merged_runs (joins s) l out.
+Proof. exact strategy_runs_gen. Qed.
+Print Assumptions strategy_runs.
 
 (** Non-vacuity: a sorted list of BGZF chunks with a nested, a touching, a
     zero-length and a distant chunk, and what each strategy returns for it. *)
